@@ -199,7 +199,7 @@ def run_shard(desc):
         if hostile:
             cnt["suffixes_that_fail_themselves"] += 1
         ext = prefix + suffix     # appended, as a user's file grows (line order of the prefix untouched)
-        reqs += [lc.calc_case(prefix), lc.calc_case(ext)]
+        reqs += [lc.calc_case(prefix, front=True), lc.calc_case(ext, front=True)]
         meta.append((prefix, suffix, start))
     obs = probe().run(reqs)
     for i, (prefix, suffix, start) in enumerate(meta):
@@ -228,7 +228,7 @@ def replay(case):
     # (minimiser) keep the >30-day separation
     if prefix and suffix and (min(pdate(t["date"]) for t in suffix) - max(pdate(t["date"]) for t in prefix)).days <= 30:
         return [], {}
-    oa, ob = probe().run([lc.calc_case(prefix), lc.calc_case(prefix + suffix)])
+    oa, ob = probe().run([lc.calc_case(prefix, front=True), lc.calc_case(prefix + suffix, front=True)])
     return compare(prefix, suffix, pdate(case["start"]), oa, ob, Counter()), {"prefix": oa, "extended": ob}
 
 
